@@ -95,8 +95,15 @@ def evaluate(ctx, T, dt, side, label, x, prevlabel, prev_plain, prev):
     if side == 'drv':
         from frappy.errors import BadValueError
         try:
-            dt(x)
+            called = dt(x)
             ctx.ok('call-total')
+            # what the driver-side conversion returns is what gets cached: apart from the range (not checked here,
+            # as documented) it must be a value of the type, i.e. validate may refuse it with a range error only
+            back = observe(dt, called, None, 'drv')
+            if back[0] == 'bad' and back[1] != 'RangeError' or back[0] == 'exc':
+                ctx.finding(f'call:result-not-of-the-type:{T["k"]}:{back[1]}:{why or "valid"}', case, f'{x!r} -> {called!r}, validate: {back!r}')
+            else:
+                ctx.ok('call-shape')
         except BadValueError:
             pass
         except Exception as e:  # noqa
